@@ -131,9 +131,8 @@ class Runtime:
             for name, f in flats.items():
                 f[...] = r0[name]
         res.log.event("launch", site=site, fields=sorted(simk.fields), n=len(cells), sched=sched, ok=not bad and not conflicts and not intra)
-        if self.launches % 7 == 0:
-            for name in sorted(r0):
-                res.log.array(name, r0[name])
+        for name in sorted(r0):
+            res.log.array(name, r0[name])
         res.log.state(site, sorted(simk.fields), sched["policy"], min(sched["threads"], 17), bool(conflicts), bool(bad))
 
 
@@ -490,7 +489,7 @@ class C15(Check):
         "quick": {"runs": 800, "batch": 6, "timeout": 900},
         "thorough": {"runs": 12000, "batch": 6, "timeout": 1500},
     }
-    selftest_runs = {"quick": 10, "thorough": 60}
+    selftest_runs = {"quick": 24, "thorough": 90}
 
     def warmup(self, tier):
         from ..seams import install
@@ -585,8 +584,9 @@ class C15(Check):
         thunks = []
         if not isinstance(getattr(wrapper, "wrapper", wrapper), irsim.SimKernel):
             thunks.append(synth_call(wrapper, dim, shape, real_t, p["sub"], p["view"], dry))
-        for k in new:
-            thunks.append(synth_call(k, dim, shape, real_t, p["sub"] + k.uid, p["view"], dry))
+        for idx, k in enumerate(new):
+            # NB: never derive data from process-global counters (k.uid): one seed = one execution
+            thunks.append(synth_call(k, dim, shape, real_t, p["sub"] + 1 + idx, p["view"], dry))
         for _ in range(p.get("repeats", 2)):
             for th in thunks:
                 th()
@@ -604,9 +604,9 @@ class C15(Check):
         saved = irsim.SimKernel.runtime
         irsim.SimKernel.runtime = None
         try:
-            for k in kernels:
+            for idx, k in enumerate(kernels):
                 compiled = orig_compile(k.kernel)
-                syn = ArgSynth(dim, shape, real_t, p["sub"] + 99 + k.uid, "contig")
+                syn = ArgSynth(dim, shape, real_t, p["sub"] + 99 + idx, "contig")
                 kw = {}
                 for fname, prm in sorted(k.fields.items()):
                     fld = prm.fields[0]
